@@ -1005,6 +1005,8 @@ def str_method(ip, s, name, args, n):
         ip.oos('str.replace (replace-all) is not modelled', n)
     if name == 'join':
         (parts,) = args
+        if z3.is_expr(parts) and S.is_seq(parts) and parts.sort() != S.SeqVal:
+            return ip.w.uf(f'str_join_{parts.sort().basis()}', z3.StringSort(), parts.sort(), z3.StringSort())(s, parts)
         seq = ip.as_seq(parts, n)
         return ip.w.uf('str_join', z3.StringSort(), S.SeqVal, z3.StringSort())(s, seq)
     if name == 'format':
